@@ -421,6 +421,15 @@ def c15_wide(n: int, k0: int, k1: int, k2: int, skip: int, via: int, v0: int) ->
       world.allow_a()
       if world.LOG[-1][1][0] != 2:
         return rt.no('known binding (allow-listed parameter) not applied')
+    # ---- the imports of missing modules are deleted too: the configuration can be printed, and no import
+    #      statement of a module that does not exist is part of it (round e seed C15-e) --------------------
+    try:
+      printed = gin.config_str()
+    except Exception as e:   # noqa
+      return rt.no('the configuration left by a skip_unknown parse cannot be printed: %r' % (e,))
+    for line in printed.split('\n'):
+      if line.startswith(('import ', 'from ')) and ('no_such' in line or 'c15fx_dep' in line):
+        return rt.no('the import of a missing module is still part of the configuration: %r' % line)
     # ---- placeholders raise when used ... ----------------------------------------------------
     r = _use_checks(want)
     if r is not True:
